@@ -76,7 +76,7 @@ def gen_helper(seed, tier, focus="C44"):
     return {"engine": "helpersim", "seed": seed, "focus": focus,
             "cfg": {"k": k, "n": n, "happy": happy, "nh": nh, "seg": seg, "size": size, "datapat": ch.randrange("config", "pat", 1 << 30),
                     "fetch_chunk": fetch_chunk, "knobs": gen_knobs(ch),
-                    "net": {"threads": ch.pick("config", "threads", ["sync", "sync", "async"]), "lat_profile": ch.pick("config", "lat", ["uniform", "heavy", "fifo"]), "jitter": ch.pick("config", "jit", [0.01, 0.1])}},
+                    "net": {"threads": ch.pick("config", "threads", ["sync", "sync", "async"]), "batch": ch.pick("config", "batch", [0, 0, 0, 0.001, 0.02, 0.3]), "lat_profile": ch.pick("config", "lat", ["uniform", "heavy", "fifo"]), "jitter": ch.pick("config", "jit", [0.01, 0.1])}},
             "ops": ops, "faults": []}
 
 
